@@ -23,6 +23,7 @@ import itertools
 import json
 import re
 import time
+import zlib
 from collections import Counter
 
 from . import common
@@ -586,7 +587,7 @@ def fam_mcm(quick: bool):
     pool = MCM_POOL
     for n in (0, 1, 2, 3):
         for body in itertools.product(pool, repeat=n):
-            if n == 3 and quick and (hash(repr(body)) % 4):
+            if n == 3 and quick and (zlib.crc32(repr(body).encode()) % 4):
                 continue
             out.append([("open", 1, 0)] + list(body))
     for body in itertools.product(pool[:9], repeat=2):
